@@ -49,8 +49,8 @@ func (f *JitterAddingBackoff) NextDelayMillis(numAttemptsSoFar int) (nextDelay i
 		return tmp
 	}
 
-	minJitter := int64(float64(tmp) * (1 + f.minJitterRate))
-	maxJitter := int64(float64(tmp) * (1 + f.maxJitterRate))
+	minJitter := saturatedMultiply(tmp, 1+f.minJitterRate)
+	maxJitter := saturatedMultiply(tmp, 1+f.maxJitterRate)
 	if nextDelay = minJitter + nextRandomInt64IncludingZero(maxJitter-minJitter+1); nextDelay < 0 {
 		nextDelay = 0
 	}
